@@ -249,6 +249,16 @@ func (vc *VC) atCall(f *Frame, callee string, args []SV, pc string, st *State, p
 func (f *Frame) applyContract(pos token.Pos, fn *ssa.Function, con *Contract, args []SV, bindings []SV, pc string, st *State, rt types.Type) SV {
 	vc := f.vc
 	vc.calleesUsed[con.Key()] = true
+	newUse := false
+	for _, u := range con.Uses {
+		if !vc.uses[u] {
+			vc.uses[u] = true
+			newUse = true
+		}
+	}
+	if newUse {
+		vc.forceSpecTypes()
+	}
 	if con.Trusted {
 		vc.assum[fmt.Sprintf("trusted contract of %s", fn)] = true
 	}
@@ -300,9 +310,46 @@ func (f *Frame) applyContract(pos token.Pos, fn *ssa.Function, con *Contract, ar
 	for _, m := range con.Modifies {
 		f.havocModifies(env, m, pc, st, pos)
 	}
-	// results
-	res := f.freshResults(fn.Signature.Results(), pc, st, "ret_"+sanitize(fn.Name()))
+	// results: an ensures clause of the shape (= result X) defines the result instead of constraining a fresh constant
 	results := fn.Signature.Results()
+	defs := map[int]string{}
+	for _, e := range con.Ensures {
+		if !e.Expr.IsL || len(e.Expr.List) != 3 || e.Expr.Head() != "=" || e.Expr.List[1].IsL {
+			continue
+		}
+		idx := resultIndex(e.Expr.List[1].Atom, results)
+		if idx < 0 || mentionsResult(e.Expr.List[2], results) {
+			continue
+		}
+		if _, dup := defs[idx]; dup {
+			continue
+		}
+		if t, err := env.eval(e.Expr.List[2]); err == nil {
+			defs[idx] = t
+		}
+	}
+	res := f.freshResults(fn.Signature.Results(), pc, st, "ret_"+sanitize(fn.Name()))
+	for idx, t := range defs {
+		rt1 := results.At(idx).Type()
+		srt := vc.S.sortOf(rt1)
+		term := t
+		if pre != "true" {
+			var fresh string
+			if results.Len() == 1 {
+				fresh = res.T
+			} else {
+				fresh = res.Tup[idx].T
+			}
+			term = fmt.Sprintf("(ite %s %s %s)", pre, t, fresh)
+		}
+		name := vc.fresh("ret_" + sanitize(fn.Name()))
+		vc.emit("(define-fun %s () %s %s)", name, srt, term)
+		if results.Len() == 1 {
+			res.T = name
+		} else {
+			res.Tup[idx].T = name
+		}
+	}
 	if results.Len() == 1 {
 		roots["result"] = res
 		roots["result.0"] = res
@@ -475,4 +522,40 @@ func (f *Frame) mergeStates(edges []Edge, pos token.Pos) *State {
 		}
 	}
 	return st
+}
+
+// resultIndex maps a result name (result, result.N, or a named result) to its index; -1 if none.
+func resultIndex(atom string, results *types.Tuple) int {
+	if atom == "result" && results.Len() == 1 {
+		return 0
+	}
+	if strings.HasPrefix(atom, "result.") {
+		var i int
+		if _, err := fmt.Sscanf(atom, "result.%d", &i); err == nil && i < results.Len() && fmt.Sprintf("result.%d", i) == atom {
+			return i
+		}
+		return -1
+	}
+	for i := 0; i < results.Len(); i++ {
+		if n := results.At(i).Name(); n != "" && n != "_" && n == atom {
+			return i
+		}
+	}
+	return -1
+}
+
+func mentionsResult(s *Sexp, results *types.Tuple) bool {
+	if !s.IsL {
+		root, _ := splitPath(s.Atom)
+		if root == "result" {
+			return true
+		}
+		return resultIndex(root, results) >= 0
+	}
+	for _, c := range s.List {
+		if mentionsResult(c, results) {
+			return true
+		}
+	}
+	return false
 }
